@@ -248,3 +248,40 @@ def probe_first(ctx, cases, work, failed, n_probe=600, timeout=240):
         ctx.note(f'probe of {len(probe)} cases already fails: exploration cut down to the probe')
         return probe
     return cases
+
+
+def _run_chunk(args):
+    fn, chunk = args
+    return [fn(x) for x in chunk]
+
+
+def robust_map(fn, items, workers, chunksize=64, died=lambda item: ['crash:worker-died']):
+    """`pool.map` that survives the death of a worker process (a segfault, a fatal recursion, os._exit in the code under test):
+    multiprocessing.Pool would wait for the lost task for ever.  Chunks whose worker died are re-run item by item, each in a
+    process of its own; an item that kills its process gets `died(item)` as its result."""
+    import concurrent.futures as cf
+    import multiprocessing as mp
+    chunks = [items[i:i + chunksize] for i in range(0, len(items), chunksize)]
+    results = [None] * len(chunks)
+    ctx = mp.get_context('fork')
+    with cf.ProcessPoolExecutor(max_workers=workers, mp_context=ctx) as ex:
+        futs = {ex.submit(_run_chunk, (fn, ch)): i for i, ch in enumerate(chunks)}
+        broken = False
+        for f in cf.as_completed(futs):
+            try:
+                results[futs[f]] = f.result()
+            except BaseException:  # noqa  (BrokenProcessPool, or a BaseException raised by `fn` in the worker)
+                broken = True
+    if broken:
+        for i, ch in enumerate(chunks):
+            if results[i] is not None:
+                continue
+            out = []
+            for item in ch:
+                with cf.ProcessPoolExecutor(max_workers=1, mp_context=ctx) as ex1:
+                    try:
+                        out.append(ex1.submit(fn, item).result(timeout=120))
+                    except BaseException:  # noqa  (BrokenProcessPool, TimeoutError, a BaseException raised by `fn`)
+                        out.append(died(item))
+            results[i] = out
+    return [r for ch in results for r in ch]
